@@ -302,4 +302,95 @@ CHECKS['C03'] = dict(
           'text). Known findings F14, F20, F28. Repo fixes: NoIn family, *_nobf right operands.'),
 )
 
+
+# ---- second build round: what changed (appended so that the history of each entry stays readable) -------------------
+
+def _upd(cid, **kw):
+    for k, v in kw.items():
+        if k.endswith('_add'):
+            CHECKS[cid][k[:-4]] = CHECKS[cid][k[:-4]] + ' ' + v
+        else:
+            CHECKS[cid][k] = v
+
+
+_upd('C01', engine='E2 tables + E3 charclass + E4',
+     technique=('deductive per grammar production under the pretty rule set (real actions, definitions, handlers; structural induction) for '
+                'token order/presence (O-print) and for token adjacency (O-sep: the real layout handlers replayed on every boundary token pair '
+                'of the LAST/FIRST sets, decided against spec/fuse.py); re-parse equality and print fixpoint by bounded round trip'),
+     text_add=('O-sep: for every production and every gap between two of its items, the chain of layout rules the real definitions emit there '
+               'is recorded and the real handlers are replayed for each pair (last token class of the left item, first token class of the right '
+               'item), with representatives of every lexical class; the text they put between the two tokens must keep them apart exactly when '
+               'spec/fuse.py says the two would otherwise fuse or change class.'),
+     note_add='O-sep over-approximates LAST/FIRST from the grammar; array productions with elisions are skipped (bounded only).')
+_upd('C02', engine='E2 tables + E3 charclass + E4',
+     technique=('deductive per grammar production x minifier configuration (real actions, real definitions, real handlers on tagged slots; '
+                'structural induction) for token order/presence (O-print) and token adjacency (O-sep against spec/fuse.py, both minify '
+                'configurations); semicolon dropping and the whole round trip by a bounded stand-in with diagnosed signatures'),
+     text_add=('O-sep (see C01) under minify and minify+drop_semi decides "no two neighbouring tokens fuse or change lexical class" for every '
+               'production and boundary pair; its failures are the recorded findings F7/F8.'))
+_upd('C03',
+     text_add=('Added: the text handed to Parser.parse reaches the LALR driver unchanged and Lexer.input hands it to ply unchanged (E1, with '
+               'over-approximated str methods); the regular-expression token pattern equals RegularExpressionLiteral (7.8.5) on all strings of '
+               'length <= 6 over a separating alphabet; identifier characters are disjoint from white space and line terminators; a bounded '
+               'character-level part (every WhiteSpace/LineTerminator/control code point at the edges, every first character of a regex).'),
+     note_add='Repo fix 364c4c5: a regular expression literal cannot contain a line terminator.')
+_upd('C04', technique_add='; per-attribute frame obligations on the look-behind state (only _set_tokens / _get_update_token / backtracked_token / '
+     'auto_semi / _token store to it)')
+_upd('C05', engine='E1 pyvc + frame + E4',
+     technique=("deductive: contract of Lexer._token (for all texts and lexer states, loops cut: the regex reader is applied to a `/` iff it "
+                "starts no comment and the look-behind state forbids a division; text modelled as length + code-point function, skip() "
+                "uninterpreted), transition contracts (path-complete, z3) on _get_update_token / _set_tokens / backtracked_token / p_error, "
+                "per-attribute frame obligations on the look-behind state; classification against the statement's context list by a bounded matrix"),
+     text_add=('Lexer._token: at every call site of its two readers the precondition holds -- _read_regex only where the next non-ignored '
+               'character is a `/` that opens no comment and division is not permitted by (last real token, parenthesis marker), '
+               '_get_update_token never there. p_error re-reads `/` and `/=` after `}`/`++`/`--` (fix c2cf23b).'),
+     note_add='Repo fix c2cf23b: `/=` is re-read as a regular expression start after a block.')
+_upd('C06', text_add=('Added: Lexer.input / Parser.parse forward the text unchanged (E1); Lexer.get_lexer_token takes the column before and '
+                      'advances the line table after every token whose pattern can match a line terminator (LT-freeness of each token pattern '
+                      'decided by a sound walk over the parsed regex); identifier characters disjoint from separators.'))
+_upd('C07', engine='E1 pyvc + E4 + E3 side obligations', technique=(
+    'deductive contracts (E1) on Obfuscator.resolve / finalize, Scope.resolve, Scope / CatchScope.build_remap_symbols with recording doubles for '
+    'dict/set state and the loop over the sorted items cut; capture freedom as a whole (reserved-set algebra over the scope tree) by a bounded '
+    "executable post-condition with an independent ES5 scope resolver; exhaustive side obligations on the definitions' scope-marker order and "
+    'the name alphabet'),
+     text_add=('Now under contract: an occurrence prints exactly what the scope it was registered in resolves its spelling to; resolve is the first '
+               'remapping on the parent chain; build_remap_symbols gives every locally declared symbol, and only those, the next generated name '
+               '(none skipped, none reused), builds the generator from the reserved set and recurses into every child; finalize closes, builds the '
+               'generator from the reserved keywords and remaps top-level names iff obfuscate_globals.'))
+_upd('C08', text_add='Added: the Lexer.input / Parser.parse / get_lexer_token contracts shared with C06/C11 (positions refer to the text as given).')
+_upd('C09', technique=('deductive contracts (z3) on Names, Bookkeeper, normalize_mapping_line (loop contract over lines of any length: abstract '
+                       'input sequence, fold-abstracted output list, ghost absolute view), verify_write_sourcemap_args and write_sourcemap (wiring, '
+                       'recording doubles); sourcemap.write by bounded executable contract against an independent Source Map V3 decoder'),
+     text_add=('normalize_mapping_line: for every input segment, a consumer interpolating linearly from the last emitted segment sees the same '
+               'source file, line and column; named segments are emitted themselves; the carry equals what the decoder is behind. '
+               'verify_write_sourcemap_args: `file` and every `sources` entry are made relative to the map, the URL relative to the output.'),
+     note='Trusted: C10, str.splitlines, json/base64, the independent decoder, os.path (normrelpath bounded). Bounded only: write(), '
+          'normalize_mappings(), Names.__iter__, encode_sourcemap.')
+_upd('C10', text_add='Added: purity obligations on vlq.py (no store outside call-local values, no module-level mutable state) and a bounded '
+                     'call-edit-call history.')
+_upd('C11', text_add='Added: the Lexer.input / Parser.parse / get_lexer_token contracts shared with C06/C08.')
+_upd('C12', text_add='Added: Parser.parse forwards the text unchanged (E1), so quoted positions refer to the input as given.')
+_upd('C13', text_add='Added: per-attribute read/write frame of the comment channel (hidden_tokens / with_comments / yield_comments are read only where '
+                     'comments are collected, handed over and attached) and programs with omitted semicolons in the placement matrix.')
+_upd('C16', engine='E2 tables + E1 pyvc + E4',
+     technique=('deductive per production for children()/tree-ness (real actions on tagged slots); deductive contracts (E1) for Walker.walk / filter / '
+                'extract against the pre-order specification over an uninterpreted node sort (loop invariants, recursion by contract) and for '
+                'Node.__iter__; purity of walkers.py; bounded stand-in on parsed trees'),
+     text_add=('Walker.walk yields pre(n) = flat(kids(n)); filter yields filt(pre(n)); extract returns filt(pre(n))[skip] and raises TypeError exactly '
+               'when there are not that many matches.'),
+     note='Trusted: induction over derivations; finiteness of trees (termination of the recursion). Node.__iter__: lists of <= 3 children. '
+          'Known finding F17 (Comments nodes are never walked).')
+_upd('C17', text_add=('Added: contracts (E1) for optimize_build / purge_tabs / reoptimize / reoptimize_all (which files are removed before which '
+                      'rebuild, generated names passed on, UTF-8 writer patched in) and two scenarios on the real helper: one module missing + '
+                      'the other stale, and a rebuild under LC_ALL=C.'))
+_upd('C18', text_add=('Added: sourcemap.write_sourcemap under contract (the JSON text goes unaltered to the map stream, or strictly encoded in the '
+                      'declared charset into the data URL), verify_write_sourcemap_args wiring, the unparser modelled as a generator that may yield '
+                      'nothing; bounded inline-map decoding over encodings x error handlers.'),
+     note='Trusted: close() does not raise; externals have no other effect on streams. Bounded only: normrelpath (os.path), node lists.')
+_upd('C19', engine='E2 tables + E4', technique=(
+    'deductive per node kind (E2): the real extractor rule table applied to every JSON composite kind with value stubs of every value class '
+    '(structural induction over the literal); exhaustive per-token tables for the leaves; bounded executable contract with json.loads as oracle'),
+     text_add=('O-extract: arrays, objects (key spellings, repeated keys), var / assignment bindings and programs combine the values of their parts '
+               'exactly as JSON does, for children that are opaque or the falsy / empty / non-empty value of each JSON class.'))
+
 NOT_APPLICABLE = {}
